@@ -9,6 +9,9 @@ overlap with every subregion by exact float comparison
 When min_val comes out one ulp below the subregion's upper face (here -2.8e-17 < 0.0) the subregion
 is "clipped" to a sliver [min_val, sub_reg_p_max] of width 1 ulp, which the Mesh constructor then
 rejects ("Subregion A cannot be divided into discretisation cells").
+
+Status: repaired in /repo by 9f4b1e31 "fix: range selection drops subregions that only touch the
+selected range" (overlap of at least half a cell required); these tests fail on the tree before it.
 """
 import numpy as np
 
